@@ -122,10 +122,80 @@ def _nest_guards(d, node):
     return lo, hi
 
 
-def _index_checked(fn, d, sites):
+def _range_predicates(P, fn, d):
+    """if-statements `if (!in_range(obj, param)) <exit>` where in_range is a bool helper of the program that
+    answers true only under `param >= 0 && param < bound` (every `return` of it is false, or an && chain
+    holding both comparisons on the corresponding parameter)."""
+    out = []
+    if P is None:
+        return out
+    for n in fn.body.walk():
+        if n.k != "IfStmt":
+            continue
+        kids = [x for x in n.c if x is not None]
+        if not any(r.k in ("ReturnStmt", "GotoStmt") for r in kids[1].walk()):
+            continue
+        c = kids[0].strip_casts()
+        neg = False
+        while c is not None and c.k == "UnaryOperator" and c.op == "!":
+            neg = not neg
+            c = c.c[0].strip_casts()
+        if c is None or c.k != "CallExpr" or not c.callee or not neg:
+            continue
+        pos = [i for i, a in enumerate(c.args()) if a.strip_casts().k == "DeclRefExpr" and a.strip_casts().get("d") == d
+               and a.strip_casts().get("dk") == "param"]
+        if not pos:
+            continue
+        for g in P.by_name.get(c.callee, []):
+            if pos[0] >= len(g.params) or (g.ret or "").strip() not in ("_Bool", "bool"):
+                continue
+            gd = g.params[pos[0]]["d"]
+            good = True
+            for r in g.returns():
+                e = r.c[0] if r.c else None
+                if e is None:
+                    good = False
+                elif e.cv == 0:
+                    continue
+                else:
+                    lo_, hi_ = _nest_guards(gd, r)
+                    leaves = []
+
+                    def split(x):
+                        x = x.strip()
+                        if x.k == "BinaryOperator" and x.op == "&&":
+                            split(x.c[0])
+                            split(x.c[1])
+                        else:
+                            leaves.append(x)
+                    split(e)
+                    for lf in leaves:
+                        if lf.k != "BinaryOperator" or lf.op not in ("<", "<=", ">", ">="):
+                            continue
+                        l, r_ = lf.c[0].strip_casts(), lf.c[1].strip_casts()
+                        op = lf.op
+                        if r_.k == "DeclRefExpr" and r_.get("d") == gd and r_.get("dk") == "param":
+                            l, r_ = r_, l
+                            op = {"<": ">", "<=": ">=", ">": "<", ">=": "<="}[op]
+                        if not (l.k == "DeclRefExpr" and l.get("d") == gd and l.get("dk") == "param"):
+                            continue
+                        rv = lf.c[1].cv if r_ is lf.c[1].strip_casts() else lf.c[0].cv
+                        if (op == ">=" and rv == 0) or (op == ">" and rv == -1):
+                            lo_ = True
+                        elif op == "<" and rv is None:
+                            hi_ = True
+                    good = good and lo_ and hi_
+            if good and g.returns():
+                out.append(n)
+    return out
+
+
+def _index_checked(fn, d, sites, P=None):
     """Every node of `sites` runs only after `param >= 0` and `param < bound` are established: by
     dominating exit guards, or by the conditions it is nested in."""
     lo, hi = _range_guards(fn, d)
+    both = _range_predicates(P, fn, d)
+    lo, hi = lo + both, hi + both
     for s_ in sites:
         nlo, nhi = _nest_guards(d, s_)
         if not (nlo or any(fn.cfg.node_dominates(_first_cfg(fn, g), s_) for g in lo)):
@@ -422,7 +492,7 @@ def run(ctx):
                 continue
             ni += 1
             key = "index-arg|%s:%s|%s" % (P.rel(fn.file), fn.name, p["n"])
-            ok = _index_checked(fn, p["d"], subs)
+            ok = _index_checked(fn, p["d"], subs, P)
             how = "own guard"
             if not ok and fn.static:
                 # a helper of one file: the obligation sits at its call sites - a caller's own index
@@ -440,7 +510,7 @@ def run(ctx):
                     for g, c in sites:
                         a = c.args()[pi].strip_casts() if pi < len(c.args()) else None
                         if a is not None and a.k == "DeclRefExpr" and a.get("dk") == "param":
-                            if not _index_checked(g, a.get("d"), [c]):
+                            if not _index_checked(g, a.get("d"), [c], P):
                                 ok = False
                                 hows.append("%s passes its own `%s` unchecked" % (g.name, a.name))
                             else:
